@@ -69,6 +69,12 @@ CATALOGUE = [
     ('C06-c', 'C06', 'circus/client.py',
      "            for socket in events:\n                msg = socket.recv()\n                try:\n                    res = json.loads(msg)\n                    if res.get('id') != call_id:\n                        # we got the wrong message\n                        continue\n                    return res",
      "            for socket in events:\n                msg = socket.recv()\n                try:\n                    res = json.loads(msg)\n                    return res"),
+    ('C06-d', 'C06', 'circus/client.py',
+     "                self.stream.stop_on_recv()\n                future.set_result(messages)",
+     "                future.set_result(messages)"),
+    ('C06-e', 'C06', 'circus/client.py',
+     "                self.stream.stop_on_recv()\n                raise CallError(\"Timed out.\")",
+     "                raise CallError(\"Timed out.\")"),
     ('C07-a', 'C07', 'circus/sockets.py',
      "        if hasattr(self, 'set_inheritable'):\n            self.set_inheritable(True)",
      "        if hasattr(self, 'set_inheritable'):\n            self.set_inheritable(False)"),
